@@ -19,7 +19,7 @@ LEVEL_TEXT = ("The device reports a generated thermostat state; the call passes 
               "an unsuccessful response. Thorough enumerates the full state x subset x remote-kind x flag grid with one value draw each.")
 RULE = ("case = (IR-set spec, reported state, requested subset with values, update-only flag, fault step or none, ids, session, time); "
         "non-trivial = at least one setting omitted and at least one given; distinct by the whole case."
-        ' A third of the non-fault cases run an earlier control call on the same API and remote objects first (clock gap 0, 1 or 60 s); half of the fault cases use one empty read while the stream goes on instead of an EOF.')
+        ' A third of the non-fault cases run an earlier control call on the same API and remote objects first (clock gap 0, 1 or 60 s); half of the fault cases use one empty read while the stream goes on instead of an EOF. A third of the non-fault cases build the remote object right after another remote object (a sparser sibling set) was used and dropped (churn). slow-device: a device that answers by request kind, 0.3 s per answer, with one answer 2 s .. 1 h late under the harness-owned loop clock, optionally followed by a step that gets no answer.')
 ASSUMPTIONS = [
     "thermostat state-reply layout and frame layouts of DESIGN appendix A; IR lookup semantics of C15's reference (cases it leaves unspecified are skipped)",
     "target_temp=0 and None mean 'omitted' (the API's defaults)",
@@ -105,7 +105,10 @@ async def exchange(case, script):
                     pass
                 await cl.settle()
             nbefore = len(cl.conn.frames)
-        dev.set_script(script)
+        if isinstance(script, dict):
+            cl.conn.responder = script["responder"]
+        else:
+            dev.set_script(script)
         k = case.get("empty_read")
         if k is not None:
             # "empty reply" in the sense the unit tests use: one read() yields b'' although the stream goes on.
@@ -122,22 +125,113 @@ async def exchange(case, script):
                 return b"" if i == k else data
             rd.read = read
         remote, _ = ops.remote_for(case["ir"])
+        if case.get("churn"):
+            # another remote object (a sparser sibling of this code set) lived and died in this process just before this one
+            # was built: nothing it worked out may be inherited by a later object that happens to get its address
+            from aioswitcher.api.remotes import SwitcherBreezeRemote
+            d_ = ops.enums()
+            sib = dict(case["ir"], density=20 + case["ir"]["seed"] % 30, seed=case["ir"]["seed"] + 1)
+            sib.pop("lonely_min", None), sib.pop("auto_temps", None), sib.pop("d1_only_prefixed", None)
+            set_prev, set_now = irset.expand(sib), irset.expand(case["ir"])
+            r0 = SwitcherBreezeRemote(set_prev)
+            for md in d_.ThermostatMode:
+                for tt in (case["cur"]["target"], case["req"].get("target") or 24):
+                    for fl in d_.ThermostatFanLevel:
+                        for sw in d_.ThermostatSwing:
+                            for stt in d_.DeviceState:
+                                try:
+                                    r0.build_command(stt, md, tt, fl, sw, d_.DeviceState.ON if case["cur"]["on"] else d_.DeviceState.OFF)
+                                except Exception:
+                                    pass
+            del r0
+            remote = SwitcherBreezeRemote(set_now)
         kw = ops.breeze_kwargs(case["req"])
         if case.get("update"):
             kw["update_state"] = True
         with vclock.frozen_epoch("UTC", case["ts"]):
             import asyncio
             try:
-                res = await asyncio.wait_for(cl.api.control_breeze_device(remote, **kw), 20)
+                slow_secs = (case.get("slow") or {}).get("secs", 0)
+                res = await asyncio.wait_for(cl.api.control_breeze_device(remote, **kw), 20 + 2 * slow_secs)
                 out = ("ok", res)
             except asyncio.TimeoutError:
                 out = ("timeout", None)
             except Exception as exc:  # noqa
                 out = ("raise", exc)
+            if case.get("slow") and out[0] != "ok":
+                await asyncio.sleep(case["slow"]["secs"] + 1)
             await cl.settle()
         return out[0], out[1], list(cl.conn.frames[nbefore:])
     finally:
         await cl.close()
+
+
+def body_slow(rep, case):
+    """One step answered correctly but late (event-loop time, harness-owned clock), optionally followed by a step that
+    gets no answer at all.  The call may wait or give up; it must not report success when a step went unanswered, and if
+    it does report success the command / status frames it sent are the model's."""
+    mdl = model(case)
+    if mdl[0] == "skip":
+        rep.label("unspecified-by-C15-skipped")
+        return
+    exp_frames, exp_outcome = mdl[1], mdl[2]
+    slow, fault = case["slow"], case.get("fault")
+    if slow["step"] >= len(exp_frames) or (fault is not None and (fault >= len(exp_frames) or fault <= slow["step"])):
+        rep.label("fault-step-beyond-exchange-skipped")
+        return
+    # the device answers by request: every login with the login reply, every state query with its state, every command
+    # with an acknowledgement - so a client that asks twice gets two answers, as from a real device
+    positional = script_for(case, len(exp_frames))
+    kinds = [wire.classify(f) for f in exp_frames]
+
+    def target(step):
+        return (kinds[step], kinds[:step + 1].count(kinds[step]))
+    slow_at, eof_at = target(slow["step"]), (target(fault) if fault is not None else None)
+    seen = {}
+
+    def responder(frame):
+        k = wire.classify(frame) if len(frame) >= 44 else "short"
+        seen[k] = seen.get(k, 0) + 1
+        if eof_at == (k, seen[k]):
+            return {"eof": True}
+        if k.startswith("login"):
+            r = dict(positional[0])
+        elif k == "get_state2":
+            r = dict(positional[1])
+        else:
+            r = dict(positional[2 + (seen[k] - 1) % 4])
+        # a real device needs some milliseconds per answer: two answers never arrive in one segment
+        r["sleep"] = slow["secs"] if slow_at == (k, seen[k]) else 0.3
+        return r
+    script = {"responder": responder}
+    special = case["ir"]["id"] in irset.SPECIAL_SWING_IDS
+    rep.tick("slow-device", key=case, nontrivial=True, sample=case,
+             labels=(f"late@step{slow['step']}", f"eof@step{fault}" if fault is not None else "no-eof"))
+    with net.virtual_time():
+        status, res, frames = net.run(exchange(case, script))
+    tag = ("special" if special else "ordinary") + ("/update" if case.get("update") else "/command")
+    if status != "ok":
+        rep.label("gave-up-or-raised")
+        return
+    if fault is not None:
+        if getattr(res, "successful", None) is not False:
+            raise Violation(f"C16/empty-reply/reports-success/step{fault}/after-late-reply/{tag}", case,
+                            "RuntimeError or unsuccessful response", repr(res)[:160])
+        return
+    if exp_outcome == "ok":
+        want = [f for f in exp_frames if wire.classify(f) in ("breeze_command", "breeze_status")]
+        got = [f for f in frames if len(f) >= 44 and wire.classify(f) in ("breeze_command", "breeze_status")]
+        if want != got:
+            raise Violation(f"C16/command-frames-after-late-reply/{tag}", case, [f.hex() for f in want], [f.hex() for f in got])
+    else:
+        raise Violation(f"C16/expected-RuntimeError/{tag}/after-late-reply", case, "RuntimeError", repr(res)[:160])
+
+
+def strat_slow():
+    base = strat(True, True)()
+    return st.builds(lambda c, step, secs, eof: dict({k: v for k, v in c.items() if k not in ("empty_read",)},
+                                                     slow={"step": step, "secs": secs}, fault=eof),
+                     base, st.integers(0, 2), st.sampled_from([2, 4, 6, 11, 31, 61, 3601]), st.one_of(st.none(), st.integers(1, 3)))
 
 
 def classify_req(case):
@@ -153,6 +247,8 @@ def body(rep, case, sub="dense"):
     nt = 0 < len(given) < 5
     labels = [f"given={len(given)}", "special-swing-remote" if special else "ordinary-remote",
               "toggle" if case["ir"]["toggle"] else "non-toggle", "update-only" if case.get("update") else "ir-command"]
+    if case.get("churn"):
+        labels.append("remote-built-after-another-died")
     fault = case.get("fault")
     if fault is not None:
         labels.append(f"eof@step{fault}")
@@ -279,7 +375,7 @@ def strat(dense, faults):
                 cur_states(modes_w, edge), requests(modes_w, edge), st.booleans(),
                 st.integers(0, 3) if faults else st.none(), gen.device_ids, gen.sessions, gen.timestamps, st.integers(1, 100),
                 st.booleans() if faults else st.just(False)).flatmap(
-                    lambda c: st.one_of(st.just(c), st.just(c), st.builds(
+                    lambda c: st.one_of(st.just(c), st.just(dict(c, churn=True)), st.builds(
                         lambda cur0, req0, up0, gap: dict(c, first={"cur": cur0, "req": req0, "update": up0, "gap": gap}),
                         cur_states(modes), requests(modes), st.booleans(), st.sampled_from([0, 0, 1, 60]))) if not faults else st.just(c))
         return specs.flatmap(with_spec)
@@ -342,6 +438,7 @@ def subchecks(tier):
         Sub("faults", lambda rep, case: body(rep, case, "faults"), strategy=strat(True, True), n=40_000 if big else 2400,
             shards=16 if big else 4, shrink_budget=150),
     ]
+    subs.append(Sub("slow-device", body_slow, strategy=strat_slow, n=20_000 if big else 900, shards=8 if big else 2, shrink_budget=100))
     if big:
         subs.append(Sub("grid", body_grid, cases=cases_grid(tier), shards=16, exhaustive=True))
     return subs
